@@ -16,7 +16,7 @@ ASSUMPTIONS = [
 
 
 def run():
-  return pairrun.run_pairs('C07', [('lv.gen_meta', 'c07_pairs', 135, 5000), ('lv.gen_meta', 'c07_named_rotation_pairs', 4, 40), ('lv.gen_meta', 'c07_functor_pairs', 24, 1000), ('lv.gen_meta', 'c07_kf_pairs', 1, 1)], FUNCTIONS, ASSUMPTIONS,
+  return pairrun.run_pairs('C07', [('lv.gen_meta', 'c07_pairs', 135, 5000), ('lv.gen_meta', 'c07_named_rotation_pairs', 4, 40), ('lv.gen_meta', 'c07_dnf_pairs', 4, 40), ('lv.gen_meta', 'c07_functor_pairs', 24, 1000), ('lv.gen_meta', 'c07_kf_pairs', 1, 1)], FUNCTIONS, ASSUMPTIONS,
                            'DESIGN.md §3 C07',
                            rejected_is_violation=lambda r: r.get('rejected_side') == 'b')
 
